@@ -1,5 +1,6 @@
-from checks import scan, text, hexre, cond, shortcuts, externals, arena, company
+from checks import scan, text, hexre, cond, shortcuts, externals, arena, company, hashmath
 CHECKS = {
+    "C14": hashmath.c14,
     "C05": company.c05,
     "C08": arena.c08,
     "C17": arena.c17,
